@@ -298,7 +298,12 @@ macro_rules! quaternion_complete_mod {
                 let (from, to) = (from.into(), to.into());
                 let norm_u_norm_v = (from.dot(from) * to.dot(to)).sqrt();
                 let w = norm_u_norm_v + from.dot(to);
-                let (Vec3 { x, y, z }, w) = if w < norm_u_norm_v * T::epsilon() {
+                // For opposite directions `w` is zero up to the rounding of the two terms above,
+                // which can reach a few epsilons of `norm_u_norm_v`; a threshold of one epsilon
+                // let such pairs through with `from.cross(to) == 0`, yielding the identity.
+                let two = T::one() + T::one();
+                let threshold = two * two * two * T::epsilon();
+                let (Vec3 { x, y, z }, w) = if w < norm_u_norm_v * threshold {
                     // If we are here, it is a 180° rotation, which we have to handle.
                     if from.x.abs() > from.z.abs() {
                         (Vec3::new(-from.y, from.x, T::zero()), T::zero())
